@@ -66,6 +66,11 @@ type c36Cfg struct {
 	Uni      bool   `json:"uni"`
 	Refresh  string `json:"refresh"` // none | extend | expired | fail
 	Extend   int    `json:"extend"`
+	// SubRefreshHandler answer for subscriptions without client-side refresh found expired by the
+	// presence tick: fail | expired | extend (by SubExtend seconds) | forever (ExpireAt 0)
+	SubRefresh string `json:"sub_refresh"`
+	SubExtend  int    `json:"sub_extend"`
+	SrvSubs    bool   `json:"srv_subs"` // subscriptions of this case are server-side (Client.Subscribe)
 }
 
 type c36Label struct {
@@ -102,7 +107,7 @@ func (l c36Label) coq() string {
 }
 
 type c36Ev struct {
-	Kind string `json:"kind"` // ping | close | unsub | reply | refreshpush
+	Kind string `json:"kind"` // ping | close | unsub | reply | refreshpush | ask
 	Chan int    `json:"chan,omitempty"`
 	Code uint32 `json:"code,omitempty"`
 }
@@ -117,6 +122,8 @@ func (e c36Ev) coq() string {
 		return vApp("OUnsub", vN(uint64(e.Chan)), vN(uint64(e.Code)))
 	case "reply":
 		return vApp("OReply", vN(uint64(e.Code)))
+	case "ask":
+		return vApp("OAsk", vN(uint64(e.Chan)))
 	}
 	return "ORefreshPush"
 }
@@ -158,6 +165,7 @@ type c36H struct {
 	cmdID       uint32
 	conn        c36Label
 	unsubDeadline time.Time
+	asked       []c36Ev
 	wantUnsub   int // unsubscribe pushes the current step must still deliver (they are written by goroutines)
 }
 
@@ -335,7 +343,8 @@ func (h *c36H) settle() []c36Ev {
 		}
 	}
 	h.wantUnsub = 0
-	evs := h.evs
+	evs := append(h.asked, h.evs...)
+	h.asked = nil
 	h.evs = nil
 	if h.isClosed() && !h.closed {
 		h.closed = true
@@ -393,7 +402,19 @@ func c36New(t *testing.T, cfg c36Cfg) *c36H {
 		}
 		c.OnSubRefresh(func(e SubRefreshEvent, cb SubRefreshCallback) {
 			if !e.ClientSideRefresh {
-				cb(SubRefreshReply{}, errors.New("no server-side sub refresh"))
+				n := 0
+				fmt.Sscanf(e.Channel, "ch%d", &n)
+				h.asked = append(h.asked, c36Ev{Kind: "ask", Chan: n}) // called synchronously by the tick
+				switch cfg.SubRefresh {
+				case "extend":
+					cb(SubRefreshReply{ExpireAt: h.abs(h.vnow() + cfg.SubExtend)}, nil)
+				case "forever":
+					cb(SubRefreshReply{}, nil)
+				case "expired":
+					cb(SubRefreshReply{Expired: true}, nil)
+				default:
+					cb(SubRefreshReply{}, errors.New("no server-side sub refresh"))
+				}
 				return
 			}
 			cb(SubRefreshReply{ExpireAt: h.abs(h.subRefreshE)}, nil)
@@ -510,8 +531,10 @@ func (h *c36H) apply(l c36Label) {
 		case timerOpPresence:
 			want := 0
 			c.mu.Lock()
+			extends := h.cfg.SubRefresh == "extend" || h.cfg.SubRefresh == "forever"
 			for _, ctx := range c.channels {
-				if ctx.expireAt > 0 && time.Now().Unix() > ctx.expireAt+int64(h.cfg.SubDelay) {
+				if ctx.expireAt > 0 && time.Now().Unix() > ctx.expireAt+int64(h.cfg.SubDelay) &&
+					(channelHasFlag(ctx.flags, flagClientSideRefresh) || !extends) {
 					want++
 				}
 			}
@@ -564,9 +587,9 @@ func c36Gen(r *rand.Rand, h *c36H, step int, subs map[int]bool) *c36Label {
 	}
 	future := func() int { return (vnow/10+1+r.Intn(6))*10 + 0 } // a multiple of 10 strictly after vnow
 	if !auth {
-		if x < 55 {
+		if x < 75 {
 			e := 0
-			if r.Intn(3) != 0 {
+			if r.Intn(2) != 0 {
 				e = future()
 			}
 			fping := h.cfg.Ping / 2
@@ -575,15 +598,18 @@ func c36Gen(r *rand.Rand, h *c36H, step int, subs map[int]bool) *c36Label {
 			}
 			return &c36Label{Kind: "connect", E: e, CSR: r.Intn(2) == 0, FPres: h.cfg.Presence - 10*(h.cfg.Presence/20), FPing: fping}
 		}
-		if due && x < 80 {
+		if due && x < 90 {
 			return &c36Label{Kind: "fire"}
 		}
-		if x < 85 {
+		if x < 93 {
 			return &c36Label{Kind: "pong"}
 		}
 		return &c36Label{Kind: "advance", D: 10}
 	}
-	if h.cfg.Uni && x >= 62 && x < 88 {
+	h.client.mu.Lock()
+	pingOut := h.client.lastPing > 0 // a ping is unanswered (the sign flips when the pong arrives)
+	h.client.mu.Unlock()
+	if h.cfg.Uni && x >= 62 && x < 88 && !(h.cfg.SrvSubs && x >= 72 && x < 82) {
 		// a unidirectional client sends no commands
 		x = 90
 	}
@@ -593,9 +619,15 @@ func c36Gen(r *rand.Rand, h *c36H, step int, subs map[int]bool) *c36Label {
 	case x < 62:
 		return &c36Label{Kind: "advance", D: 10 * (1 + r.Intn(3))}
 	case x < 72:
-		return &c36Label{Kind: "pong"}
-	case x < 80:
+		if pingOut && r.Intn(4) != 0 || r.Intn(12) == 0 { // mostly answers to a ping, rarely unsolicited
+			return &c36Label{Kind: "pong"}
+		}
+		return &c36Label{Kind: "advance", D: 10}
+	case x < 82:
 		n := 1 + r.Intn(3)
+		if subs[n] && h.cfg.Uni {
+			return &c36Label{Kind: "advance", D: 10}
+		}
 		if subs[n] {
 			return &c36Label{Kind: "subrefresh", Chan: n, E: []int{0, future(), future(), (vnow / 10) * 10}[r.Intn(4)]}
 		}
@@ -603,13 +635,32 @@ func c36Gen(r *rand.Rand, h *c36H, step int, subs map[int]bool) *c36Label {
 		e := 0
 		if r.Intn(4) != 0 {
 			e = future()
+			if r.Intn(3) != 0 { // soon, so that the run lives to see it expire
+				e = (vnow/10 + 1 + r.Intn(2)) * 10
+			}
 		}
-		return &c36Label{Kind: "subscribe", Chan: n, E: e, CSR: true, Server: false}
+		if h.cfg.SrvSubs {
+			// an expired server-side subscription closes the connection from a goroutine while the tick
+			// goes on with the other channels: keep a single expiring one when nothing extends it, so
+			// that what the tick still does after starting the close does not matter
+			if h.cfg.SubRefresh != "extend" && h.cfg.SubRefresh != "forever" {
+				if subs[-1] {
+					e = 0
+				} else if e != 0 {
+					subs[-1] = true
+				}
+			}
+			return &c36Label{Kind: "subscribe", Chan: n, E: e, CSR: false, Server: true}
+		}
+		return &c36Label{Kind: "subscribe", Chan: n, E: e, CSR: r.Intn(3) != 0, Server: false}
 	case x < 88:
-		return &c36Label{Kind: "refresh", E: []int{0, future(), future(), (vnow / 10) * 10}[r.Intn(4)]}
-	case x < 96:
-		e := []int{0, future(), future(), (vnow / 10) * 10}[r.Intn(4)]
-		return &c36Label{Kind: "srvrefresh", E: e, Expired: r.Intn(10) == 0}
+		if !h.conn.CSR && r.Intn(6) != 0 { // a refresh command without client-side refresh is a bad request
+			return &c36Label{Kind: "advance", D: 10}
+		}
+		return &c36Label{Kind: "refresh", E: []int{0, future(), future(), future(), (vnow / 10) * 10}[r.Intn(5)]}
+	case x < 94:
+		e := []int{0, future(), future(), future(), future(), (vnow / 10) * 10}[r.Intn(6)]
+		return &c36Label{Kind: "srvrefresh", E: e, Expired: r.Intn(15) == 0}
 	}
 	return &c36Label{Kind: "advance", D: 10}
 }
@@ -633,6 +684,23 @@ func TestVerifC36(t *testing.T) {
 		// subscription expiry
 		{{Kind: "advance", D: 5}, {Kind: "connect", FPres: 13, FPing: 10}, {Kind: "subscribe", Chan: 1, E: 10, CSR: true}, {Kind: "subscribe", Chan: 2, E: 60, CSR: true}, {Kind: "advance", D: 20}, {Kind: "fire"}, {Kind: "fire"}, {Kind: "fire"}},
 	}
+	// server-side sub refresh at the presence tick (appended: earlier corpus indices stay)
+	corpusCfg := map[int]func(c *c36Cfg){}
+	subTail := []c36Label{{Kind: "advance", D: 20}, {Kind: "fire"}, {Kind: "fire"}, {Kind: "fire"}, {Kind: "advance", D: 30}, {Kind: "fire"}, {Kind: "fire"},
+		{Kind: "advance", D: 30}, {Kind: "fire"}, {Kind: "fire"}, {Kind: "fire"}}
+	addSub := func(mod func(c *c36Cfg), subs ...c36Label) {
+		ls := []c36Label{{Kind: "advance", D: 5}, {Kind: "connect", FPres: 13, FPing: 10}}
+		ls = append(ls, subs...)
+		ls = append(ls, subTail...)
+		corpusCfg[len(corpus)] = mod
+		corpus = append(corpus, ls)
+	}
+	for _, sr := range []string{"extend", "forever", "expired", "fail"} {
+		sr := sr
+		mod := func(c *c36Cfg) { c.SubRefresh, c.SubExtend, c.Pong = sr, 17, 0 }
+		addSub(mod, c36Label{Kind: "subscribe", Chan: 1, E: 10}, c36Label{Kind: "subscribe", Chan: 2, E: 10, CSR: true}, c36Label{Kind: "subscribe", Chan: 3, E: 90})
+		addSub(mod, c36Label{Kind: "subscribe", Chan: 1, E: 10, Server: true}, c36Label{Kind: "subscribe", Chan: 2, E: 90, Server: true})
+	}
 	for i := 0; i < w.N; i++ {
 		if !w.Want(i) {
 			continue
@@ -640,12 +708,15 @@ func TestVerifC36(t *testing.T) {
 		r := w.Rand(i)
 		// deadlines of different kinds never coincide: pings / pong checks fall on 5 (mod 10) like the clock,
 		// presence ticks on 8, expiry checks on 0 or 2 (the code breaks ties by nanoseconds)
-		cfg := c36Cfg{Ping: 20, Pong: 10, Presence: 23, Stale: 20, ExpDelay: 10, SubDelay: 10, Refresh: "none"}
+		cfg := c36Cfg{Ping: 20, Pong: 10, Presence: 23, Stale: 20, ExpDelay: 10, SubDelay: 10, Refresh: "none", SubRefresh: "fail"}
 		var fixed []c36Label
 		class := "random"
 		if i < len(corpus) {
 			fixed = corpus[i]
 			class = "corpus"
+			if mod := corpusCfg[i]; mod != nil {
+				mod(&cfg)
+			}
 		} else {
 			cfg.Ping = []int{20, 20, 40}[r.Intn(3)]
 			cfg.Pong = []int{10, 10, 0}[r.Intn(3)]
@@ -656,21 +727,31 @@ func TestVerifC36(t *testing.T) {
 			cfg.Uni = r.Intn(5) == 0
 			cfg.Refresh = []string{"none", "none", "extend", "expired", "fail"}[r.Intn(5)]
 			cfg.Extend = 7 + 10*(1+r.Intn(3))
+			cfg.SubRefresh = []string{"fail", "expired", "extend", "extend", "forever"}[r.Intn(5)]
+			cfg.SubExtend = 7 + 10*(1+r.Intn(3)) // new expiries fall on 5 (mod 10), ticks on 8
+			cfg.SrvSubs = r.Intn(4) == 0
 		}
 		h := c36New(t, cfg)
 		var labels []c36Label
 		var obs [][]c36Ev
 		var snaps []c36Snap
-		steps := 8 + r.Intn(22)
+		steps := 10 + r.Intn(30)
 		if fixed != nil {
 			steps = len(fixed)
 		}
 		subs := map[int]bool{}
+		closedSteps := 0
 		for k := 0; k < steps; k++ {
 			var l *c36Label
 			if fixed != nil {
 				l = &fixed[k]
 			} else {
+				if h.isClosed() {
+					closedSteps++
+					if closedSteps > 2 { // a closed connection stays closed: two more labels show it
+						break
+					}
+				}
 				l = c36Gen(r, h, k, subs)
 			}
 			if l.Kind == "fire" {
@@ -700,8 +781,17 @@ func TestVerifC36(t *testing.T) {
 		case "fail":
 			rs = "RFail"
 		}
+		ss0 := "SFail"
+		switch cfg.SubRefresh {
+		case "extend":
+			ss0 = vApp("SExtend", vN(uint64(cfg.SubExtend)))
+		case "expired":
+			ss0 = "SExpired"
+		case "forever":
+			ss0 = "SForever"
+		}
 		cfgT := vApp("mkCfg", vN(uint64(cfg.Ping)), vN(uint64(cfg.Pong)), vN(uint64(cfg.Presence)), vN(uint64(cfg.Stale)),
-			vN(uint64(cfg.ExpDelay)), vN(uint64(cfg.SubDelay)), vBool(cfg.Uni), rs)
+			vN(uint64(cfg.ExpDelay)), vN(uint64(cfg.SubDelay)), vBool(cfg.Uni), rs, ss0)
 		ls := make([]string, len(labels))
 		os := make([]string, len(labels))
 		ss := make([]string, len(labels))
